@@ -48,6 +48,8 @@ def release_trace(sc):
         kw = dict(continuous=c["cont"])
         if c["cont"]:
             kw["release_frequency"] = sc.get("freqform", c["freq"])
+        elif sc.get("idle_freq"):      # a discrete release that still names a frequency (a continuous set-up switched off by its flag): it must not matter
+            kw["release_frequency"] = sc["idle_freq"]
         if not sc["header"]:
             kw["names"] = cols
         try:
@@ -120,6 +122,7 @@ def scenario(rng, small):
         freqform = f"PT{fq * dt}S"
     inwin = sum(1 for r in rows for _ in [0] if 0 <= ((start - r["t"]) if rev else (r["t"] - start)) < nsteps * dt)
     return dict(cfg=dict(start=start, stop=stop, dt=dt, rev=rev, cont=cont, freq=fq * dt), table=rows,
+                idle_freq=(rng.choice([1, 2, 3]) * dt if (not cont and rng.random() < 0.35) else 0),
                 cols=cols, header=rng.random() < 0.6, sep=rng.choice([" ", "  ", "\t"]), tfmt=rng.choice(["full", "short"]),
                 freqform=freqform,
                 cls=dict(rev=rev, cont=cont, multi_time=len(sims) > 1, rows_in_window=inwin > 0,
